@@ -132,6 +132,9 @@ func (w *World) Sig(desc string) []byte {
 }
 
 func (w *World) Desc(sig []byte) string {
+	if len(sig) == 0 {
+		return "j0" // blanked signature: undeserialisable, like j0
+	}
 	if d, ok := w.descs[string(sig)]; ok {
 		return d
 	}
@@ -178,11 +181,7 @@ func (n *Node) Proposal(p uint32, ver uint64, sig string, esig string) string {
 	w := n.W
 	vp := &vbft.VerifProposal{Block: w.Block(BlockHashID(uint64(p), ver, false), w.Sig(sig)),
 		Empty: w.Block(BlockHashID(uint64(p), ver, true), w.Sig(esig)), Proposer: p}
-	pk := n.PeerPubKey(p)
-	if pk == nil {
-		return "rej"
-	}
-	if err := vbft.VerifVerifyProposal(vp, pk); err != nil {
+	if err := n.VerifyProposalFrom(vp); err != nil {
 		return "rej"
 	}
 	_, had := n.Vers[p]
@@ -208,14 +207,12 @@ type EndorseMsg struct {
 func (n *Node) Endorse(sender uint32, m EndorseMsg) string {
 	w := n.W
 	ve := &vbft.VerifEndorse{Endorser: m.Endorser, Proposer: m.Proposer, BlockNum: BlkNum, Hash: w.Hash(m.Hash), ForEmpty: m.FE, Sig: w.Sig(m.Sig)}
-	pk := n.PeerPubKey(sender)
-	if pk == nil {
+	if err := n.VerifyEndorseFrom(sender, ve); err != nil {
 		return "rej"
 	}
-	if err := vbft.VerifVerifyEndorse(ve, pk); err != nil {
+	if err := n.NewBlockEndorsement(ve); err != nil {
 		return "rej"
 	}
-	n.NewBlockEndorsement(ve)
 	return "ok"
 }
 
@@ -239,18 +236,14 @@ func (n *Node) Commit(sender uint32, m CommitMsg) string {
 	for _, e := range m.Endorsers {
 		vc.EndorsersSig[e.Endorser] = w.Sig(e.Sig)
 	}
-	pk := n.PeerPubKey(sender)
-	if pk == nil {
-		return "rej"
-	}
-	if err := vbft.VerifVerifyCommit(vc, pk); err != nil {
+	if err := n.VerifyCommitFrom(sender, vc); err != nil {
 		return "rej"
 	}
 	if err := n.NewBlockCommitment(vc); err != nil {
 		if vbft.VerifIsDupCommit(err) {
 			return "dup"
 		}
-		return "err"
+		return "rej"
 	}
 	for _, e := range m.Endorsers {
 		n.FromESig[fmt.Sprintf("%d/%s", e.Endorser, e.Sig)] = true
